@@ -53,7 +53,7 @@ def run(ctx, replay_ops=None):
     if not ok:
         raise RuntimeError("driver c1416 does not build: " + out[-800:])
     env = {} if proved else {"VERIF_BUDGET_SCALE": "300"}
-    ctx.cov["rule"] = ("a case = one random history of real blocks (payments, account creation/close, asset create/opt-in/transfer/close-out/destroy, box put/delete, "
+    ctx.cov["rule"] = ("a case = one random history of real blocks (payments, account creation/close, asset create/opt-in/transfer/close-out/destroy, box put/delete incl. ZERO-LENGTH values (create empty, overwrite, delete+re-create empty/non-empty in one block), "
                        "key registration) with random CatchpointInterval 4..8 and CatchpointLookback 2..10, replayed on a reference ledger (flush every round) and 3-4 ledgers with "
                        "random MaxAcctLookback / tracking mode / trie page+cache configuration and random schedules: flush gaps <= interval (one sparse ledger: gaps up to 3 intervals), "
                        "restarts, partial flushes, crash images before the post-commit work. Evaluations = emitted lines; a `run` line is non-trivial when the ledger created >= 2 labels; "
@@ -129,7 +129,9 @@ def run(ctx, replay_ops=None):
                 what = ("two real ledgers that processed the same blocks created different catchpoint labels for round %d (%s vs %s): %s  /  %s"
                         % (r, prev[0][:12], h[:12], prev[1].split(" ev=")[0], op.split(" ev=")[0]))
                 rp = {"kind": "label-divergence", "ops": [case], "round": r, "labels": [prev[0], h], "runs": [prev[1][:800], op[:800]], "harness": HARNESS}
-                if clash:
+                # the known finding is matched only by ITS pattern: the directed history (boxes "qq"="r" / "q"="qr", "qq" deleted in
+                # round 9) and a first divergence at a catchpoint whose accounts round is past that deletion
+                if clash and r - int(kvs(case)["L"]) >= 9:
                     ctx.violation("kv boundary shift as a schedule dependence: " + what, rp, found_input=True, match_key=KNOWN_KEY)
                 else:
                     ctx.violation(what, rp, found_input=True)
